@@ -79,6 +79,9 @@ def _case(draw, kind):
                 mid_fault=draw(st.sampled_from([None, None, None, 1, 2, 4, 7, 12])),
                 prelude_fault=draw(st.sampled_from([None, None, None, 2, 5, 9, 14, 20, 33])),
                 prelude_overflow=(draw(st.sampled_from([False, False, False, True])) if kind != "implicit" else False),
+                # a transient fault INSIDE the judged call, of a type the integrators answer with a second attempt of the step
+                # (ValueError / LinAlgError): if the call returns, what it returns is judged like any other step
+                swallowed_fault=draw(st.sampled_from([None, None, None, None, 1, 2, 3, 4, 6, 9])), swallowed_kind=draw(st.sampled_from(["ValueError", "LinAlgError"])),
                 jump_mode=draw(st.sampled_from(["full", "full", "state_one_component", "state_one_component", "state_all_components", "time_only"])),
                 jump_index=draw(st.integers(0, 5)),
                 jump=[draw(st.booleans()) for _ in range(2)], jump_y=draw(PR.state(rhs["shape"])), jump_t=draw(st.sampled_from([0.5, -1.25, 7.0])))
@@ -118,6 +121,7 @@ def check(case):
     kbox = [1.0]
     evals = [0]
     fault_at = [None]
+    fault_exc = [None]
     buf = {}
     tampered = []
 
@@ -134,7 +138,7 @@ def check(case):
             evals[0] += 1
             if fault_at[0] is not None and evals[0] == fault_at[0]:
                 fault_at[0] = None
-                raise Boom("injected at evaluation {}".format(evals[0]))
+                raise (fault_exc[0] or Boom)("injected at evaluation {}".format(evals[0]))
             out = f0(t, y) * np.asarray(y).dtype.type(kw.get("k", kbox[0]))
             if not case.get("persistent_out"):
                 return out
@@ -223,8 +227,16 @@ def check(case):
             cdict = shared_constants
         else:
             cdict = {"k": kbox[0]}
+        if case.get("swallowed_fault") is not None and step_no == 0:
+            fault_at[0] = evals[0] + case["swallowed_fault"]
+            fault_exc[0] = ValueError if case.get("swallowed_kind") == "ValueError" else np.linalg.LinAlgError
         try:
-            next_dt, (dT, dY) = integ(rhs, t, y, cdict, h)
+            try:
+                next_dt, (dT, dY) = integ(rhs, t, y, cdict, h)
+            finally:
+                labels.append("transient_fault_in_judged_call:" + ("not_reached" if fault_at[0] is not None else "raised")) if fault_exc[0] is not None else None
+                fault_at[0] = None
+                injected_type, fault_exc[0] = fault_exc[0], None
         except FailedToMeetTolerances as e:
             labels.append("reported_failure")
             blown = float(np.max(np.abs(np.asarray(y, dtype=np.float64)))) > 1e8 * (1.0 + float(np.max(np.abs(np.asarray(case["y"], dtype=np.float64)))))
@@ -246,6 +258,9 @@ def check(case):
                         name, step_no, cond, abs(float(h)) * float(np.max(np.sum(np.abs(Jf), axis=1))), e), sig, **attrs))
             break
         except Exception as e:
+            if injected_type is not None and isinstance(e, injected_type) and str(e).startswith("injected at evaluation"):
+                labels.append("transient_fault_propagated")      # (raised outside the part of the call that is attempted twice)
+                break
             origin, where = exc_origin(e)
             if origin == "harness":
                 raise
